@@ -361,6 +361,28 @@ VEC_KINDS["mat_rot"] = "dimensionless"
 VEC_KINDS["mat_lin"] = "1/angstrom"
 
 
+KINDS["slit_edges"] = {"target": "rad", "others": ["deg"], "fixed": [0.2, 0.6, 1.5, 2.2, 3.0, 3.3], "dim": "slit", "lo": 0, "hi": 1}
+
+
+def _from_nexus(*, frequency, phase, slit_edges, beam_position, pulse_frequency):
+    import scipp as sc
+    from scippneutron.chopper import DiskChopper, extract_chopper_from_nexus
+
+    raw = sc.DataGroup({
+        "position": sc.vector([0.0, 0.0, 8.0], unit="m"),
+        "rotation_speed": sc.DataGroup({"value": sc.DataArray(
+            sc.concat([frequency], "time"), coords={"time": sc.array(dims=["time"], values=[0.0], unit="s")})}),
+        "beam_position": beam_position, "phase": phase, "slit_edges": slit_edges,
+        "slit_height": sc.scalar(0.1, unit="m"), "radius": sc.scalar(0.35, unit="m"),
+        "top_dead_center": sc.DataGroup({"time": sc.array(dims=["time"], values=[1, 2], unit="ms")}),
+    })
+    proc = extract_chopper_from_nexus(raw)
+    # time-dependent log -> constant value (what the user guide asks callers to do)
+    ch = DiskChopper.from_nexus({**proc, "rotation_speed": proc["rotation_speed"].data})
+    return {"processed": proc, "open": ch.time_offset_open(pulse_frequency=pulse_frequency),
+            "close": ch.time_offset_close(pulse_frequency=pulse_frequency), "eq": ch == ch}
+
+
 def _deduce(*, data):
     import scippneutron as scn
 
@@ -386,9 +408,11 @@ CALLS.update({
     "tof.hkl_vec_from_Q_vec": (_tof("hkl_vec_from_Q_vec"), _kw(Q_vec="vec_Q", ub_matrix="mat_lin", sample_rotation="mat_rot")),
     "tof.ub_matrix_from_u_and_b": (_tof("ub_matrix_from_u_and_b"), _kw(u_matrix="mat_rot", b_matrix="mat_lin")),
     "core.deduce_conversion_graph": (lambda: _deduce, {"$data": "tofdata"}),
+    "chopper.from_nexus": (lambda: _from_nexus, _kw(frequency="chopper_freq", phase="phase", slit_edges="slit_edges",
+                                                    beam_position="beam_pos", pulse_frequency="pulse_freq")),
     "cif.Loop+save_cif": (lambda: _cif_lowlevel, _kw(column="xgrid", other="vertex_wav")),
 })
-SAME_LAYOUT |= {"cascade.Subframe", "chopper.DiskChopper"}
+SAME_LAYOUT |= {"cascade.Subframe", "chopper.DiskChopper", "chopper.from_nexus"}
 
 
 def _convert(*, data, target="wavelength", scatter=True):
@@ -1397,7 +1421,7 @@ class C09Engine(Engine):
                 "peaks.model": None, "peaks._fit_peaks": None, "peaks._remove_peaks": None, "atoms": None,
                 "io.xye": None, "io.cif": None}
         reached = " ".join(list(CALLS) + list(FACTORIES) + list(DERIVES) + list(HCALLS)) + " " + " ".join(
-            inspect.getsource(f) for f in (_model, _deduce, _cif_lowlevel, _disk_chopper, _subframe, _source_pulse, _model_call, _model_params,
+            inspect.getsource(f) for f in (_model, _deduce, _cif_lowlevel, _from_nexus, _disk_chopper, _subframe, _source_pulse, _model_call, _model_params,
                                            _transmission, _plateaus, _components, _fit_small, _convert,
                                            _remove_peaks_call, _xye_roundtrip, _cif_save, _block_write,
                                            _use_graph, _call_model, _guess_model, _cyl, _material, _cif,
